@@ -1206,9 +1206,13 @@ func directedOverlap(c *ctx) {
 		}
 		for first := 2; first <= 4; first++ {
 			for again := 0; again < first; again++ {
-				for variant := 0; variant < 4; variant++ {
+				for variant := 0; variant < 5; variant++ {
 					ops := []*bmx.Op{{Kind: "AE", Names: []string{"b", "i", "u"}}, {Kind: "AEM", Re: bmx.NewRE(`^my-`)}, {Kind: "AA", Names: []string{"style"}, Scope: "G"}}
-					if variant == 3 {
+					if variant == 4 {
+						// several registered properties in one call, each left to its own default handler: the
+						// last one named changes with `again`
+						ops = append(ops, mk(append(append([]string{}, props[again:first]...), props[:again]...), nil, nil))
+					} else if variant == 3 {
 						// several properties in one call, each left to its own default handler (one has none)
 						rot := append(append([]string{}, props[again:first]...), props[:again]...)
 						// ... or only a longer or shorter name that has one: color-scheme, margin-inline-start, colo
